@@ -209,7 +209,8 @@ def run_shard(ctx: Ctx) -> None:
     common.use_repo()
     total = 5 if ctx.quick else 90
     for b in range(total):
-        d = specgen.generate(ctx.rng, prof={"ops": (2, 5), "schemas": (3, 6), "p_stream": 0.1, "opid_shapes": True})
+        d = specgen.generate(ctx.rng, prof={"ops": (2, 5), "schemas": (3, 6), "p_stream": 0.1, "opid_shapes": True, "p_param": 0.8,
+                                            "p_component_refs": 0.4})
         run_doc(ctx, d, ctx.shard * 1000 + b)
     # schema-centred documents (nested containers, nullable anything, named maps / aliases): same invariance
     for b in range(2 if ctx.quick else 30):
